@@ -160,6 +160,8 @@ def discover(trees: dict[str, ast.Module], only_mod: str | None = None) -> tuple
                 t = _fields(wrapper).get(ch[1], "")
                 nm = t.replace("ctor:", "").split(".")[0].split("(")[0].strip()
                 acked_cls = classes.get(nm)
+                if acked_cls is not None:
+                    putc(acked_cls.name, "_AckedModeParams", "class of the acked-mode block")
         ch = _ret_chain(h, "nak_activity_counter")
         if ch and len(ch) == 3:
             put(ch[2], "nak_activity_counter", "returned by the public nak_activity_counter property")
@@ -208,6 +210,7 @@ def discover(trees: dict[str, ast.Module], only_mod: str | None = None) -> tuple
                     c2 = classes.get(nm)
                     if c2 is not None and hname == "SourceHandler" and any("TransactionStep" in v for v in _fields(c2).values()):
                         put(k, "ack_params", "block holding the step saved before a retransmission")
+                        putc(c2.name, "_AckedModeParams", "class of the source's acked-mode block")
                         for k2, t2 in _fields(c2).items():
                             if "TransactionStep" in t2:
                                 put(k2, "step_before_retransmission", "TransactionStep field of the source acked-mode block")
